@@ -191,7 +191,9 @@ func (ts *tokens) Discharge(isPerm Predicate, tpLocation string, tpKey macaroon.
 		ubl     = ts.undischargedTicketsByLocation(isPerm)
 	)
 
-	for tLoc, tickets := range ubl {
+	// only the tickets meant for this third party: the others are sealed under
+	// other third parties' keys
+	for tLoc, tickets := range map[string][][]byte{tpLocation: ubl[tpLocation]} {
 		tpErr := func(err error) error { return fmt.Errorf("location %s: %w", tLoc, err) }
 
 		for _, ticket := range tickets {
